@@ -781,7 +781,6 @@ def run_property(ctx: Ctx, prop: str) -> int:
         ctx.register_matcher("superseded-duplicate-not-rendered", kf_superseded_duplicate_not_rendered)
         ctx.register_matcher("percent-encoded-page-filename", kf_percent_encoded_page_filename)
         ctx.register_matcher("toc-backref-stale-id", kf_toc_backref_stale_id)
-        ctx.register_matcher("footnote-backref-unprefixed", kf_footnote_backref_unprefixed)
         ctx.register_matcher("summary-local-reference-copied", kf_summary_local_reference_copied)
         ctx.register_matcher("inherited-docstring-samepage-link", kf_inherited_docstring_link)
         ctx.register_matcher("dead-link-to-hidden-object", kf_dead_link_to_hidden)
